@@ -18,7 +18,8 @@ Qed.
 (* The reservation invariant.  InvM m: a piece is marked Reserved(n) only with 1 <= n <= the number of connected peers
    that are not choking us and are assigned it.  It holds in every state reachable by ANY sequence of peer commands the
    connection tasks can produce (repeated and out-of-order ones included, any interleaving over any number of peers,
-   disconnects anywhere), for every answer of the chooser. *)
+   disconnects anywhere), for every answer of the chooser, interleaved with newly accepted connections, runs of the
+   choke-rotation timer (any rate lists, any optimistic picks) and tracker answers (any peer lists). *)
 Theorem C12_invariant : forall m, mreach m -> InvM m.
 Proof. intros. apply reservation_invariant_reachable; [reflexivity | assumption]. Qed.
 
@@ -71,6 +72,24 @@ Theorem C12_task_commands_sendable : forall sha1 cf disk ovf a m s ev r k rest,
   cmds_of (acts_of (hstep sha1 cf disk ovf s ev r)) = k :: rest -> sendable m (to_cmd a k).
 Proof. exact own_first_command_sendable. Qed.
 
+(* The full form (review): Session::run puts `.expect("Can't handle command")` on handle_peer_cmd's Result, so an `Err`
+   (PeerNotFound, a bitfield of the wrong size) ends the manager exactly like a panic.  `deliverable` = `sendable` + the
+   sender is a connected peer + a relayed bitfield passed Bitfield::validate; on such a command the manager returns Ok *)
+Theorem C12_manager_handles : forall m c pick, WFm m -> deliverable m c -> valid_pick m pick ->
+  exists m' rep bc sp, mstep m c pick = Ok (m', rep, bc, sp).
+Proof. exact manager_handles. Qed.
+(* ... which is what the tasks send, in every reachable composition ... *)
+Theorem C12_task_commands_deliverable : forall sha1 cf disk ovf a m s ev r k rest,
+  creach sha1 cf disk ovf a m s -> c_pieces_num cf = pieces_n m ->
+  cmds_of (acts_of (hstep sha1 cf disk ovf s ev r)) = k :: rest -> deliverable m (to_cmd a k).
+Proof. exact own_first_command_deliverable. Qed.
+(* ... and the rotation timer's `.expect`: with rate lists and optimistic picks drawn from the connected peers (the
+   wrapper builds both from the keys of `peers`) change_conn_state returns Ok *)
+Theorem C12_rotation_handles : forall m rates new_opt,
+  (forall a, In a (map fst rates) -> pget (m_peers m) a <> None) -> (forall a, In a new_opt -> pget (m_peers m) a <> None) ->
+  exists m' fl, change_conn_state m rates new_opt = Ok (m', fl).
+Proof. exact rotation_handles. Qed.
+
 (* and an assignment is asked for at once: C10_assignment (the task writes the first blocks of the piece it was assigned).
    Not modelled: the KillReq window after a task's death. The correspondence evaluates the stronger "has actually been
    asked" form on the real Session with the task's piece in the harness (reserved_backed / asked_ok). Three defects
@@ -91,3 +110,6 @@ Print Assumptions C12_flags_agree.
 Print Assumptions C12_no_manager_panic.
 Print Assumptions C12_wf_preserved.
 Print Assumptions C12_task_commands_sendable.
+Print Assumptions C12_manager_handles.
+Print Assumptions C12_task_commands_deliverable.
+Print Assumptions C12_rotation_handles.
